@@ -107,13 +107,31 @@ HARNESSES += [
        bounds={'threads': 2, 'free_rounds': 2, 'forced_rounds': 2, 'spin_unroll': 2}),
 ]
 def RE(a1, a2, b1, b2=7, **kw): return dict({'SA1': a1, 'SA2': a2, 'SB1': b1, 'SB2': b2}, **kw)
+RE_KW = dict(harness='h_reuse.c', native_cflags=['-fno-sanitize=null'])   # thread-mode C forms &p->f from not-yet-loaded (null) temporaries without accessing them
+RE_DESC = ('scoped_lock object REUSED: a thread runs two lock cycles on the same scoped_lock object (stale queue links / going flag / reader-writer state of cycle 1 meet the '
+           'second acquire or try_acquire) while the other thread queues behind the first cycle; exclusion, truthful try (a try may fail only if another request overlapped it), '
+           'FIFO, blocked-state oracle, no write into an idle scoped_lock object, lock word free at the end and a fresh object acquires at once; ')
+HARNESSES += [
+  dict(name='queuing_mutex_reuse_2t', unit='qm2_re', defines={'LOCK': 2, 'NT': 2, 'ROUNDS': 3}, cbmc=['--unwind', '16', '--slice-formula'], timeout=900,
+       scenarios=[RE(a1, a2, 0) for a1 in (0, 1) for a2 in (0, 1)] + [RE(0, 0, 0, 0)],
+       scenarios_thorough=[RE(a1, a2, 0) for a1 in (0, 1) for a2 in (0, 1)] + [RE(0, 0, 0, 0), RE(0, 1, 0, 0), RE(0, 0, 0, 1), RE(1, 0, 1, 0), RE(0, 1, 0, 1)],
+       desc=RE_DESC + 'queuing_mutex: A = acquire|try x acquire|try, B = one blocking cycle; and both threads with two cycles', bounds=dict(B2, spin_unroll=1, cycles_per_thread=2), **RE_KW),
+  dict(name='queuing_mutex_reuse_3t', unit='qm3_re', defines={'LOCK': 2, 'NT': 3, 'ROUNDS': 2}, cbmc=['--unwind', '16', '--slice-formula'], timeout=3600, tiers=['thorough'],
+       scenarios=[dict(RE(0, 0, 0), SC1=0, SC2=7), dict(RE(0, 1, 0), SC1=0, SC2=7), dict(RE(0, 0, 0, 0), SC1=0, SC2=7)],
+       desc=RE_DESC + 'queuing_mutex, 3 threads', bounds={'threads': 3, 'free_rounds': 2, 'forced_rounds': 2, 'spin_unroll': 1, 'cycles_per_thread': 2}, **RE_KW),
+  dict(name='spin_rw_mutex_reuse_2t', unit='rw2_re', defines={'LOCK': 3, 'NT': 2, 'ROUNDS': 3}, cbmc=['--unwind', '16', '--slice-formula'], timeout=1800, tiers=['thorough'],
+       scenarios=[RE(a1, a2, b) for a1 in (0, 1, 2, 3, 4, 5) for a2 in (0, 1, 2, 4, 5) for b in (0, 1)],
+       desc=RE_DESC + 'spin_rw_mutex through rw_scoped_lock (object state: m_mutex, m_is_writer): A = any role x reader|writer|upgrade|try reader|try writer, B = reader|writer',
+       bounds=dict(B2, spin_unroll=1, cycles_per_thread=2), **RE_KW),
+  dict(name='queuing_rw_mutex_reuse_2t', unit='qrw2_re', defines={'LOCK': 4, 'NT': 2, 'ROUNDS': 2}, cbmc=QRW_CBMC, timeout=5400, mem_gb=16, tiers=['thorough'],
+       scenarios=[RE(1, 1, 1), RE(1, 5, 1), RE(1, 0, 0), RE(1, 4, 0), RE(0, 0, 0), RE(0, 1, 1), RE(0, 5, 1), RE(0, 0, 1), RE(2, 0, 1), RE(3, 0, 0), RE(1, 2, 0)],   # ~3 GB and 8-17 min each
+       desc=RE_DESC + 'queuing_rw_mutex: reader/writer/upgrade/downgrade first cycles that hand the lock to the queued successor, then acquire/try_acquire on the same node',
+       bounds={'threads': 2, 'free_rounds': 2, 'forced_rounds': 2, 'spin_unroll': 1, 'cycles_per_thread': 2}, **RE_KW),
+]
+if os.environ.get('C08_ONLY_SC'):   # development aid: only the first two scenarios of every reuse harness
+  for h in HARNESSES:
+    if 'reuse' in h['name']: h['scenarios'] = h['scenarios'][:2]
 DEV = [
-  dict(name='spin_rw_mutex_reuse_2t', unit='rw2_re', harness='h_reuse.c', defines={'LOCK': 3, 'NT': 2, 'ROUNDS': 3}, native_cflags=['-fno-sanitize=null'], cbmc=['--unwind', '16', '--slice-formula'],
-       scenarios=[RE(0, 1, 1), RE(2, 0, 0), RE(1, 2, 0), RE(2, 4, 1)], timeout=1800, desc='', bounds={}),
-  dict(name='queuing_rw_mutex_reuse_2t', unit='qrw2_re', harness='h_reuse.c', defines={'LOCK': 4, 'NT': 2, 'ROUNDS': 2}, native_cflags=['-fno-sanitize=null'], cbmc=QRW_CBMC,
-       scenarios=[RE(1, 5, 1, ROUNDS=1), RE(0, 0, 0, ROUNDS=1)], timeout=3600, mem_gb=16, desc='', bounds={}),
-  dict(name='queuing_mutex_reuse_2t', unit='qm2_re', harness='h_reuse.c', defines={'LOCK': 2, 'NT': 2, 'ROUNDS': 3},
-       scenarios=[RE(a1, a2, 0) for a1 in (0, 1) for a2 in (0, 1)] + [RE(0, 0, 0, 0)], native_cflags=['-fno-sanitize=null'], cbmc=['--unwind', '16', '--slice-formula'], timeout=900, desc='', bounds={}),
 ]
 if os.environ.get('C08_DEV'): HARNESSES += DEV
 MANIFEST = dict(
@@ -129,7 +147,7 @@ MANIFEST = dict(
              'Trusted: clang-14 IR, tools/ir2c.py, cbmc, the identity pointer<->integer hooks of h_rw.c.',
 )
 OUTSIDE = [
-  'more than 3 threads; more than one acquire..release cycle per thread',
+  'more than 3 threads; more than two acquire..release cycles per thread on one scoped_lock object (two cycles: *_reuse_* harnesses only; rtm locks: one cycle)',
   'HTM (transactional) execution of rtm_mutex / rtm_rw_mutex: only the fallback path with _xbegin aborting / speculation disabled',
   'tbb::mutex and tbb::rw_mutex (futex based, checked in props/C02)',
   'queuing_rw_mutex: 3 threads with more than 2 free rounds, 2 threads with more than 3, wait-loop unroll K>=2 with 3 threads; TSO for queuing_rw_mutex and the rtm locks',
